@@ -17,6 +17,23 @@ var HostileStrings = []string{
 	strings.Repeat("é", 31) + "a", strings.Repeat("é", 32), strings.Repeat("é", 31) + "ab", strings.Repeat("😀", 16), "a" + strings.Repeat("😀", 16),
 	"WHERE", "FROM t", "t.a", "a.b", "a\"; DROP", "pg_sleep(10)", "current_user", "1::int", "a::text", "CAST(1 AS int)", "(SELECT 1)", "EXISTS(SELECT 1)",
 	"%(b|d)%", "a|b", "(a)", "[a-z]", "a+", "a{2}", `\%`, `\_`, "x_y", "x%y", "100%",
+	// long runs of bytes that are no characters (continuation bytes, stray lead bytes, 0xFF)
+	strings.Repeat("\x80", 64), strings.Repeat("\x80", 70), strings.Repeat("\xbf", 130), strings.Repeat("\xff", 64), strings.Repeat("\xc3", 65), "a" + strings.Repeat("\x80", 64), strings.Repeat("\x80", 63) + "a",
+}
+
+func init() { HostileStrings = append(HostileStrings, RealWorldShapes...) }
+
+// RealWorldShapes are token shapes of everyday data: the kind of text for which somebody adds
+// "a small convenience" to a lexer (keep the slash in a CIDR, the colons in a time, the plus in a
+// phone number) and thereby changes what a character means in one context only.
+var RealWorldShapes = []string{
+	"10.0.0.0/8", "192.168.1.1", "192.168.1.1:8080", "10.0.0.0/", "::1", "fe80::1/64", "2001:db8::ff00:42:8329", "2024-01-01", "2024-01-01T10:30:00", "2024-01-01T10:30:00Z", "2024-01-01T10:30:00+01:00",
+	"10:30", "10:30:00.123", "now+1d/d", "now-15m", "1d", "-3d", "-5th", "-2024-01-01", "+1a", "+2b", "3.14.15", "v1.2.3", "v1.2.3-rc.1+build.5", "1,000", "1.000,50", "$5", "5$", "50%", "100%", "#tag", "@user", "user@example.com",
+	"http://example.com/a?b=c&d=e#f", "https://example.com:8443/x", "example.com/path", "/usr/local/bin", "C:\\dir\\file.txt", "a/b/c", "../x", "~/x", "*.go", "file.tar.gz", "550e8400-e29b-41d4-a716-446655440000", "0xDEADBEEF", "0x1F", "1e+5", "2.5E+3", "1e-5",
+	"+1-555-0100", "(555) 0100", "a&&b", "a||b", "a&b", "a|b", "!a", "a!", "R&D", "AT&T", "C++", "C#", "a=b", "a==b", "a!=b", "a<=b", "a=>b", "a->b", "a::b", "a..b", "a...b", "key=value;other=1", "{\"json\":1}", "[1,2]", "<tag>", "</tag>", "&amp;", "a\u200cb", "a\u200db", "a\u00adb",
+	"/\\Qa/b\\E/", "/[^/]+/", "/[b/", "/[/", "/a{2,3}/", "/(?i)x/", "/\\d+\\/\\d+/", "/[/]/", "/a|b/", "/^a$/", "/a\\\\/", "/\\//", "/(/", "/x**/", "/(?=x)/", "/b{2,1}/",
+	"'x\"y\"z\"w'", "'\"\"\"'", "a\"b\"c\"d", "\"\"\"", "'a'b", "it''s", "rock 'n', roll", "', ", "'', ",
+	"\u201ca b\u201d", "\u201c", "\u201d", "\u2018x\u2019", "\u00aba\u00bb",
 }
 
 // AsciiPrintable returns every printable ASCII character as a one-character string.
